@@ -132,8 +132,8 @@ func (r *replayer) runNative(hs harnessSpec, env []string, timeout time.Duration
 	if err != nil && out == "" {
 		out = "native run failed: " + err.Error()
 	}
-	if len(out) > 20000 {
-		out = out[:10000] + "\n…\n" + out[len(out)-10000:]
+	if len(out) > 8_000_000 {
+		out = out[:4_000_000] + "\n…\n" + out[len(out)-4_000_000:]
 	}
 	if timedOut {
 		out += "\nVERIF-TIMEOUT"
